@@ -404,11 +404,25 @@ pub fn close_env(dir: &Path) {
 /// map and the LMDB data file.  lock.mdb is not copied: LMDB re-initialises it whenever it obtains
 /// the exclusive lock, which is what happens after a real kill.
 pub fn image_dir(src: &Path, dst: &Path) -> std::io::Result<()> {
+    // what a kill leaves behind: EVERY regular file of the store directory and of lmdb/ as it is at this instant (not only
+    // event.map and data.mdb: a stamp, guard or journal file a change introduces is part of the image too), except LMDB's
+    // lock file, which is process state re-initialised by the next opener
     std::fs::create_dir_all(dst.join("lmdb"))?;
-    for name in ["event.map", "lmdb/data.mdb"] {
-        let s = src.join(name);
-        if s.exists() {
-            std::fs::copy(&s, dst.join(name))?;
+    for sub in ["", "lmdb"] {
+        let d = if sub.is_empty() { src.to_owned() } else { src.join(sub) };
+        let rd = match std::fs::read_dir(&d) {
+            Ok(rd) => rd,
+            Err(_) => continue,
+        };
+        for ent in rd.flatten() {
+            let name = ent.file_name();
+            if sub == "lmdb" && name == "lock.mdb" {
+                continue;
+            }
+            if ent.file_type().map(|t| t.is_file()).unwrap_or(false) {
+                let to = if sub.is_empty() { dst.join(&name) } else { dst.join(sub).join(&name) };
+                std::fs::copy(ent.path(), to)?;
+            }
         }
     }
     if !src.join("lmdb").exists() {
